@@ -265,7 +265,21 @@ def c14(cx):
                   ASSUME_CONN + ["a corrupted field LENGTH that is not a truncation cannot be detected by any reader and is outside the statement"])
 
 
-PROPS = {"C14": c14, "C16": c16, "C20": c20, "C10": c10, "C19": c19, "C12": c12, "C01": c01, "C13": c13, "C05": c05, "C06": c06, "C07": c07, "C08": c08, "C17": c17}
+def c09(cx):
+    return conn_family(
+        cx, "MC_C09", "C09", 600, 12000,
+        consts_thorough={"MaxCols": 3},
+        rule="TLC enumerates every row of 1..MaxCols cells over {value, untyped nil, nil pointer, invalid nullable, non-NULL "
+             "empty} under the simple protocol and under every admissible result-format list of the extended protocol "
+             "(Parse, Bind, Describe portal, Execute, Sync), checking arity and NULL/empty marking on the model; the "
+             "harness substitutes column types (bool, int2/4/8, float4/8, text, varchar, bytea, uuid, date, timestamp, "
+             "timestamptz) and boundary/random values (plain or behind a pointer), runs each conversation on the real "
+             "server, decodes every DataRow field with its own text/binary decoders in the announced format and TLC "
+             "compares the canonical rendering with that of the value written, field count with the RowDescription, "
+             "length -1 for every NULL kind and length 0 for empties. Random driver: 1-8 columns, 10 rows, 3 rounds.")
+
+
+PROPS = {"C09": c09, "C14": c14, "C16": c16, "C20": c20, "C10": c10, "C19": c19, "C12": c12, "C01": c01, "C13": c13, "C05": c05, "C06": c06, "C07": c07, "C08": c08, "C17": c17}
 
 
 def replay(cx, path):
